@@ -232,6 +232,26 @@ def _same_straight_line(cfg, a, b_):
     return False
 
 
+def _state0_edges(M):
+    """edges of the main loop on which the parser state is known to be 0 (before the area part): `state == 0` taken,
+    or `state != 0` not taken, with the state variable named by the role STATE"""
+    T = TreeModel(M)
+    if not T.ok or T.state is None:
+        return []
+    b, fb, cfg = M.b, M.fb, M.cfg
+    rs = Roles(b, fb, param_roles={1: "CODE"}, overrides={T.state: "STATE"})
+    evs = Events(b, fb, roles=rs)
+    out = []
+    for gb in M.loop:
+        tt = b.blocks[gb]["term"]
+        if tt["k"] == "switch":
+            for sx in cfg.succ[gb]:
+                lab = evs.generic_edge(gb, tt, sx) or ""
+                if lab in ("EQ[K0,STATE]=1", "EQ[STATE,K0]=1", "NE[K0,STATE]=0", "NE[STATE,K0]=0", "SW[STATE]=0", "LT[STATE,K1]=1"):
+                    out.append((gb, sx))
+    return out
+
+
 def rule_defs(ctx, R):
     fb = ctx.fb
     M = ParserModel(fb)
@@ -240,6 +260,7 @@ def rule_defs(ctx, R):
     b, cfg, vars_, org, roles = M.b, M.cfg, M.vars, M.org, M.roles
     R.analyse(b.name)
     ev = Events(b, fb, roles=roles)
+    st0 = _state0_edges(M)
     I = "ELEM<ENUMERATE(CHARS(CODE))>.0"
     Cc = "ELEM<ENUMERATE(CHARS(CODE))>.1"
     # both passes iterate chars().enumerate() of the input
@@ -266,6 +287,7 @@ def rule_defs(ctx, R):
                         lab = ev.generic_edge(gb, tt, sx)
                         if lab and lab.startswith("EQ[K0,") and lab.endswith("=1") and "LOOPVAR" in lab or (lab and lab.startswith("EQ[K0,PHI(") and lab.endswith("=1")):
                             guards.append((gb, sx))
+            guards = sorted(set(guards) | set(st0))
             ok2 = bool(guards) and not reaches_without(cfg, [M.head], db, cut_edges=guards)
             R.check(ok2, "parse:dot:state0", "dots are counted only before the area part began (parser state 0)", s["span"]["at"])
     # ... and they are counted: the increment exists and cannot be bypassed once state 0 was established on a dot character
@@ -283,6 +305,7 @@ def rule_defs(ctx, R):
                 lab = ev.generic_edge(gb, tt, sx)
                 if lab and lab.startswith("EQ[K0,") and lab.endswith("=1") and ("LOOPVAR" in lab or lab.startswith("EQ[K0,PHI(")) and any(reaches_without(cfg, [sx], a, cut_blocks=[M.head]) for a in adds_):
                     g0.append(sx)
+    g0 = sorted(set(g0) | {sx for gb, sx in st0 if any(reaches_without(cfg, [sx], a, cut_blocks=[M.head]) for a in adds_)})
     outside_ = [x for x in range(len(b.blocks)) if x not in M.loop]
     R.check(len(adds_) == 1 and bool(g0) and not reaches_without(cfg, g0, [M.head], cut_blocks=adds_ + outside_), "parse:dot:counted", "every dot character met before the area part is counted (the increment exists and lies on every path from the state-0 test back to the loop head): %d increment(s), %d test edge(s)" % (len(adds_), len(g0)), b.blocks[adds_[0]]["stmts"][0]["span"]["at"] if adds_ and b.blocks[adds_[0]]["stmts"] else b.span)
     # syllable counting: inside the syllable part every Hangul syllable adds exactly one
@@ -997,8 +1020,16 @@ def rule_tree(ctx, R):
                     entries.setdefault("dots", []).append(s_)
     if R.anchor(len(entries.get("dots", [])) == 1 and T.state is not None, "tree:entry:dots", "the branch that handles dot characters, and the parser's state variable"):
         rows = {(tuple(g for g in gs if "STATE" in g), tuple(e for e in es if e.startswith("STATE") or "AREA" in e or "LEAF" in e)) for gs, es in tree_effects(M, T, entries["dots"][0], [M.head])}
-        wantd = {(("EQ[K0,STATE]=1",), ("STATE:=STATE",)), (("EQ[K0,STATE]=0",), ("STATE:=STATE",))}
-        R.check(rows == wantd, "tree:dots", "a dot or ellipsis leaves the parser state, the trees and the cursors as they are (before the area: counted; after it began: ignored)", None, {"unexpected": sorted(map(str, rows - wantd)), "missing": sorted(map(str, wantd - rows))})
+        # the state after a dot is the state before it: written back as it was, left alone, or (where it is known to
+        # be 0) set to 0
+        def _z(gs):
+            zs = {("Z" if (g in ("EQ[K0,STATE]=1", "NE[K0,STATE]=0", "SW[STATE]=0")) else "NZ" if g in ("EQ[K0,STATE]=0", "NE[K0,STATE]=1", "SW[STATE]!=0") else g) for g in gs}
+            return tuple(sorted(zs))
+        norm = {(_z(gs), es) for gs, es in rows}
+        okd = {(("Z",), ("STATE:=STATE",)), (("Z",), ()), (("Z",), ("STATE:=K0",)), (("NZ",), ("STATE:=STATE",)), (("NZ",), ())}
+        wantd = okd
+        rows = norm if (norm <= okd and {g for g, _ in norm} == {("Z",), ("NZ",)}) else norm | {(("?",), ("both outcomes of the state test must appear",))}
+        R.check(rows <= wantd, "tree:dots", "a dot or ellipsis leaves the parser state, the trees and the cursors as they are (before the area: counted; after it began: ignored)", None, {"unexpected": sorted(map(str, rows - wantd)), "missing": sorted(map(str, wantd - rows))})
     # inside the syllable part (state 1): an end syllable of the pending kind closes the syllables (kind becomes the
     # command kind, dots restart at 0, state 0); anything else leaves the parser where it is
     s1 = None
